@@ -248,19 +248,25 @@ end
 
 /-! ## the normal form: what the object *is*, feature by feature -/
 
+/-- the slot of a feature nobody set: the default of a single-valued attribute, None, or the empty collection -/
+def unsetSlot {ρ : Type} (fi : FInfo) : SlotV ρ :=
+  match fi.kind with
+  | .attr => if fi.many then .attrN [] else (match fi.dflt with
+    | some d => .attr1 d
+    | Option.none => .none)
+  | _ => if fi.many then .refN [] else .none
+
 def effSlot {ρ : Type} (sd : Bool) (fi : FInfo) (slots : List (Str × SlotV ρ)) : Option (Str × SlotV ρ) :=
   match fi.kind with
   | .attr =>
     some (fi.name, match slots.lookup fi.name with
       | some (.attr1 v) => if !sd && veq fi v then .attr1 (fi.dflt.getD v) else .attr1 v
       | some s => s
-      | Option.none => if fi.many then .attrN [] else match fi.dflt with
-        | some d => .attr1 d
-        | Option.none => .none)
+      | Option.none => unsetSlot fi)
   | .ref =>
     some (fi.name, match slots.lookup fi.name with
       | some s => s
-      | Option.none => if fi.many then .refN [] else .none)
+      | Option.none => unsetSlot fi)
   | _ => Option.none
 
 mutual
